@@ -421,7 +421,9 @@ class Machine:
                 raise Unsupported("PtrMetadata of %r" % (a,))
         if k == 'discr':
             v = self.place_ref(fr, rv[1]).load()
-            if isinstance(v, Agg): return Int(64, True, v.variant)
+            if isinstance(v, Agg):
+                if v.ty == 'Ordering': return Int(8, True, v.variant - 1)      # std::cmp::Ordering has the explicit discriminants -1, 0, 1
+                return Int(64, True, v.variant)
             raise Unsupported("discriminant of %r" % (v,))
         if k == 'tuple': return Agg('tuple', 0, [self.operand(fr, a) for a in rv[1]])
         if k == 'array': return Agg('array', 0, [self.operand(fr, a) for a in rv[1]])
@@ -449,9 +451,10 @@ class Machine:
                 if z3.is_bool(v): return Int(w, s, z3.If(v, z3.BitVecVal(1, w), z3.BitVecVal(0, w)))
                 return int_cast(v, w, s)
             if 'Unsize' in kind:
-                # &[T; N] -> &[T]
-                if isinstance(v, Ref):
-                    a = v.load(); return Slice(a.fields, 0, len(a.fields))
+                # &[T; N] -> &[T]; &T -> &dyn Trait / Box<T> -> Box<dyn Trait> keep the value (its concrete type travels with it)
+                if isinstance(v, Ref) and ('dyn ' not in ty):
+                    a = v.load()
+                    if isinstance(a, Agg) and a.ty == 'array': return Slice(a.fields, 0, len(a.fields))
             return v
         raise Unsupported("rvalue " + k)
 
@@ -509,9 +512,16 @@ class Machine:
     def do_call(self, callee, args, fr):
         if callee.startswith(('copy _', 'move _')):
             f = self.operand(fr, mp.parse_operand(mp.Cur(callee)))
+            if not (isinstance(f, Native) and 'name' in f.d):
+                # a fn pointer that holds a capture-less closure, a boxed callable ...: the generic call path
+                from . import itermodels as _im
+                return _im.callf(self, f, list(args))
             name = f.d['name']
             if name.startswith('@native:'):
                 return NATIVE_FNS[name[8:]](self, args, callee)
+            if name not in self.bodies:
+                from . import itermodels as _im
+                return _im.callf(self, f, list(args))
             return self.call(name, args)
         nm = norm_name(callee)
         f = MODELS.get(nm)
@@ -520,6 +530,16 @@ class Machine:
             if pat.search(nm): return f(self, args, callee)
         key = self.lookup(callee)
         if key is not None: return self.call(key, args)
+        # dynamic dispatch: `<dyn Trait as Trait>::method(&*boxed, ..)` -- the receiver's concrete type is known at run time
+        md = re.match(r'^<dyn (?:[\w:]+::)?(\w+)(?:<.*>)? as .*>::(\w+)$', nm)
+        if md and args:
+            r0 = args[0]
+            while isinstance(r0, Ref): r0 = r0.load()
+            while isinstance(r0, Native) and r0.kind in ('Box', 'BoxInner', 'Arc'): r0 = r0.d['slot'][0] if 'slot' in r0.d else r0.d['inner']
+            if isinstance(r0, Agg):
+                tn = r0.ty.split('::')[-1]
+                hits = [n for n, b in self.bodies.items() if n.endswith('::' + md.group(2)) and re.search(r'\(_1: &(?:mut )?(?:\w+::)*' + re.escape(tn) + r'\b', b.header)]
+                if len(hits) == 1: return self.call(hits[0], args)
         # a tuple-variant constructor used as a function (`.map(Some)`, `map_or_else(.., Ok)`, `.map(Value::Int)`)
         segs = strip_generics(nm).split('::')
         if len(segs) >= 2 and segs[-2] in ENUMS and segs[-1] in ENUMS[segs[-2]]:
@@ -804,10 +824,18 @@ def encode_char(M, ch):
 @model('std::str::<impl str>::replace')
 def m_replace_char(M, a, c):
     s, pat, to = a; out = []
-    assert len(to) == 0 and not pat.sym() and pat.v < 0x80
-    for b in as_slice(s).items():
-        if M.branch(b.z() == pat.v): continue
-        out.append(b)
+    items = list(as_slice(s).items()); rep = list(as_slice(to).items())
+    while isinstance(pat, Ref): pat = pat.load()
+    pb = encode_char(M, pat) if isinstance(pat, Int) else list(as_slice(pat).items())
+    m = len(pb); i = 0; n = len(items)
+    if m == 0: raise Unsupported("str::replace with an empty pattern")
+    while i < n:
+        r = True
+        if i + m <= n:
+            for x, y in zip(items[i:i + m], pb): r = band(r, M.binop('Eq', x, y))
+        else: r = False
+        if M.branch(r): out += rep; i += m
+        else: out.append(items[i]); i += 1
     return Native('String', b=out)
 
 @model('core::str::<impl str>::parse')
